@@ -198,3 +198,64 @@ pub fn check_unit_order(log: &[Ev], is_query: &dyn Fn(u16) -> bool) -> Result<()
     }
     Ok(())
 }
+
+/// One message's expectation with the "all or none of the units after a fault"
+/// alternatives: the first entry is "every unit runs"; each further entry stops
+/// after one of the faulty units.
+#[derive(Clone, Debug)]
+pub struct MsgExpect {
+    pub alts: Vec<Vec<Expect>>,
+}
+
+impl MsgExpect {
+    /// `units`: per unit its expected events and whether it is faulty.
+    pub fn from_units(units: &[(Vec<Expect>, bool)]) -> MsgExpect {
+        let all: Vec<Expect> = units.iter().flat_map(|u| u.0.iter().cloned()).collect();
+        let mut alts = vec![all];
+        for (k, u) in units.iter().enumerate() {
+            if u.1 && k + 1 < units.len() {
+                alts.push(units[..=k].iter().flat_map(|u| u.0.iter().cloned()).collect());
+            }
+        }
+        MsgExpect { alts }
+    }
+}
+
+/// Tries the combinations of alternatives (bounded).  Ok(true) = matched with
+/// some message stopping after a fault, Ok(false) = matched with every unit run.
+pub fn check_alternatives(msgs: &[MsgExpect], got: &Streams) -> Result<bool, String> {
+    let mut idx = vec![0usize; msgs.len()];
+    let mut first_err = String::new();
+    let mut tried = 0u32;
+    loop {
+        let mut exp: Vec<Expect> = Vec::new();
+        for (m, i) in msgs.iter().zip(&idx) {
+            exp.extend(m.alts[*i].iter().cloned());
+        }
+        match check_streams(&exp, got) {
+            Ok(()) => return Ok(idx.iter().any(|i| *i != 0)),
+            Err(e) => {
+                if tried == 0 {
+                    first_err = e;
+                }
+            }
+        }
+        tried += 1;
+        if tried > 50_000 {
+            return Err(format!("{} (after {} combinations of all-or-none alternatives)", first_err, tried));
+        }
+        // next combination
+        let mut k = 0;
+        loop {
+            if k == msgs.len() {
+                return Err(first_err);
+            }
+            idx[k] += 1;
+            if idx[k] < msgs[k].alts.len() {
+                break;
+            }
+            idx[k] = 0;
+            k += 1;
+        }
+    }
+}
